@@ -4,6 +4,8 @@
 From Coq Require Import List String Bool Arith.
 From PV Require Import Tables.OpSyntax Tables.OpUtil Tables.OpRows Tables.OpCheck Tables.ApiModel
      Tables.ApiTable Tables.OpFacts Tables.ApiFacts Gen.OpTables.
+From Coq Require Import NArith.
+From PV Require Import Base.U32 Shape.ShapeImpl Shape.ShapeSpec Tables.CompositeShapes Tables.CompositeProofs.
 Import ListNotations.
 
 (* ---- finite theorems over the regenerated tables *)
@@ -72,6 +74,20 @@ Theorem C04_same_calls_rejected :
 Proof. exact same_calls_rejected. Qed.
 Print Assumptions C04_same_calls_rejected.
 
+(* ---- the four composite operators: over the executable shape-rule model (Shape/ShapeImpl.v),
+   FWD_SHAPE(op) is the shape of the composite Tensor function, errors included.  This is
+   hypothesis composite_shapes_agree of the theorems above, proved at that model. *)
+Theorem C04_composite_shapes_agree :
+  (forall x t dim, wf x -> wf t -> u32 dim -> sce_dense_tensor x t dim = sce x t dim) /\
+  (forall x ids dim, wf x -> Forall u32 ids -> u32 (N.of_nat (List.length ids)) -> u32 dim ->
+     sce_sparse_tensor x ids dim = pick x ids dim) /\
+  (forall x dim n, wf x -> u32 dim -> u32 n ->
+     split_tensor x dim n = option_map (fun s => repeat s (N.to_nat n)) (split x dim n)) /\
+  (forall x n, wf x -> u32 n ->
+     batch_split_tensor x n = option_map (fun s => repeat s (N.to_nat n)) (batch_split x n)).
+Proof. exact (conj sce_dense_agree (conj sce_sparse_agree (conj split_agree batch_split_agree))). Qed.
+Print Assumptions C04_composite_shapes_agree.
+
 (* ---- non-vacuity *)
 Local Open Scope string_scope.
 
@@ -116,3 +132,12 @@ Proof.
   split. exact toy_kernels. split. exact toy_composite. split. exact toy_commutative.
   vm_compute. repeat split; reflexivity.
 Qed.
+
+(* the composite really computes something: x = [2,3]x2, t = [2,3]x1, axis 0 -> [1,3]x2; and the
+   calls that used to differ (scalar t, split of axis 8 into one part) agree *)
+Example C04_nonvacuous_composite :
+  (sce_dense_tensor (mkS [2;3] 2 6) (mkS [2;3] 1 6) 0 = Some (mkS [1;3] 2 3))%N /\
+  (sce_dense_tensor (mkS [3] 1 3) (mkS [] 1 1) 0 = None /\ sce (mkS [3] 1 3) (mkS [] 1 1) 0 = None)%N /\
+  (split_tensor (mkS [3] 1 3) 8 1 = Some [mkS [3] 1 3] /\ split (mkS [3] 1 3) 8 1 = Some (mkS [3] 1 3))%N /\
+  (split_tensor (mkS [4;2] 1 8) 0 2 = Some [mkS [2;2] 1 4; mkS [2;2] 1 4])%N.
+Proof. vm_compute. repeat split; reflexivity. Qed.
